@@ -76,7 +76,9 @@ func isSinkType(t types.Type) bool {
 	return false
 }
 
-func mapOrder(e *Env, scope map[*ssa.Function]bool) {
+func mapOrder(e *Env, scope map[*ssa.Function]bool) { mapOrderN(e, scope, 8) }
+
+func mapOrderN(e *Env, scope map[*ssa.Function]bool, floor int) {
 	n := 0
 	for _, fn := range sortedFuncs(scope) {
 		k := 0
@@ -182,7 +184,7 @@ func mapOrder(e *Env, scope map[*ssa.Function]bool) {
 		}
 	}
 	e.R.Counts["map_ranges_in_scope"] = n
-	e.R.Floor("MAPORDER", 8)
+	e.R.Floor("MAPORDER", floor)
 }
 
 // storedTo: if the append result is stored into an address-taken local (a
